@@ -72,8 +72,12 @@ def conc_cases(binp, seed, n):
                     prog.append({"kind": "spec", "spec": rng.choice(SPECS), "flag": rng.random() < 0.5})
                 elif k < 0.86:
                     prog.append({"kind": "setopt", "flag": rng.random() < 0.5})
-                else:
+                elif rng.random() < 0.5:
                     prog.append({"kind": "pattern", "rexp": {"via": "Pattern", "p": rng.choice(PATTERNS), "s": rng.choice(STRINGS)}})
+                else:
+                    # a pattern no one has compiled yet: the cache is written while other goroutines read it
+                    fresh = "^run%d-g%d-%d-[a-z0-9]*$" % (i, g, len(prog))
+                    prog.append({"kind": "pattern", "rexp": {"via": "Pattern", "p": fresh, "fresh": True, "s": rng.choice(["run%d-g%d-%d-abc" % (i, g, len(prog)), "x", rng.choice(STRINGS)])}})
             threads.append(prog)
         out.append({"id": i, "shared": shared, "threads": threads, "procs": rng.choice([2, 16])})
     return out
